@@ -433,6 +433,21 @@ fn main() {
             if r.is_err() { report(pid, format!("stream of Values over {} panics", show(d))); }
         }
     }
+    // C09 lossy mode, skip-only decoders (found F25): a lazy value over text with invalid UTF-8 holds the repaired text
+    if want("C09") || want("C02") {
+        let pid = if want("C09") { "C09" } else { "C02" };
+        let bads: [&[u8]; 5] = [b"\"a\xff\"", b"[\"\xc3\",1]", b"{\"k\":\"\xff\xfe\"}", b"\"\\n\xff\"", b"[\"ok\",\"\xf0\x28\"]"];
+        for b in bads.iter() {
+            let want_txt = String::from_utf8_lossy(b).into_owned();
+            let r = catch_unwind(AssertUnwindSafe(|| sonic_rs::Deserializer::from_slice(b).utf8_lossy().deserialize::<sonic_rs::LazyValue>().map(|v| v.as_raw_str().as_bytes().to_vec())));
+            match r { Ok(Ok(raw)) => { if raw != want_txt.as_bytes() { report(pid, format!("lossy LazyValue over {} holds the raw bytes {:?}, String::from_utf8_lossy gives {:?}", show(b), raw, want_txt)); } } Ok(Err(e)) => report(pid, format!("lossy LazyValue over {} fails: {}", show(b), e.to_string().lines().next().unwrap_or(""))), Err(_) => report(pid, format!("lossy LazyValue over {} panics", show(b))) }
+            let r = catch_unwind(AssertUnwindSafe(|| sonic_rs::Deserializer::from_slice(b).utf8_lossy().deserialize::<sonic_rs::OwnedLazyValue>().map(|v| sonic_rs::to_string(&v).map(|s| s.into_bytes()))));
+            match r { Ok(Ok(Ok(txt))) => { if txt != want_txt.as_bytes() { report(pid, format!("lossy OwnedLazyValue over {} serializes to the bytes {:?}, String::from_utf8_lossy gives {:?}", show(b), txt, want_txt)); } } Ok(_) => report(pid, format!("lossy OwnedLazyValue over {} fails", show(b))), Err(_) => report(pid, format!("lossy OwnedLazyValue over {} panics", show(b))) }
+            // default configuration through the serde trait path: refused
+            let r = catch_unwind(AssertUnwindSafe(|| { let mut de = sonic_rs::Deserializer::from_slice(b); <sonic_rs::LazyValue as serde::Deserialize>::deserialize(&mut de).is_ok() }));
+            if let Ok(true) = r { report(pid, format!("LazyValue::deserialize(&mut Deserializer::from_slice({})) accepted invalid UTF-8", show(b))); }
+        }
+    }
     // C03 (lossy configuration): a stream of Values over input with invalid UTF-8 inside string literals — every
     // document after the first must still be read from its own first byte
     if want("C03") {
